@@ -298,7 +298,9 @@ func runC18(t *testing.T, r *simkit.Run) {
 
 	// ---- (b): batch partitions through the real apply scheduler, no faults ---------
 	lb := w.newLineage("b", false)
-	lb.useMem = faultsOn && r.Tape.Intn(3) != 0
+	// lineage (c) always runs on the real state file; (b) does so in fault-free
+	// runs and in one faulty run out of four (every Save costs two fsyncs)
+	lb.useMem = faultsOn && r.Tape.Intn(4) != 0
 	r.Config["b_on_memory_store"] = lb.useMem
 	lb.run()
 	if r.Failed() || r.InfraErr != "" {
@@ -685,7 +687,7 @@ func (l *vsLineage) run() {
 	for next <= n && !r.Failed() && r.InfraErr == "" {
 		// one job = one Ready's committed entries
 		end := next
-		for end < n && !t.Chance(1, 3) {
+		for end < n && !t.Chance(1, 4) {
 			end++
 		}
 		entries := make([]raftpb.Entry, 0, end-next+1)
